@@ -23,6 +23,17 @@
 (* client returns an error, "bad": the response fails CheckKeys, "missing": the   *)
 (* notary response has no entry for the server); the harness realises each.       *)
 (*                                                                              *)
+(* The caller's context: FetchKeys is handed a context that is live, already       *)
+(* cancelled, already past its deadline, or cancelled at an arbitrary moment while  *)
+(* the batch is being handed out / fetched (CtxModes lists the cases a cfg explores; *)
+(* Cancel is an environment action).  The code never looks at the context itself:    *)
+(* it passes it to the KeyClient, whose calls fail ("ctx") once it is done; servers   *)
+(* keep being handed to the workers and each of them fails quickly.  A fetch that      *)
+(* completed before the cancellation counts.  StopOnDone = TRUE is the design that      *)
+(* stops handing out servers once the context is done WITHOUT closing the queue        *)
+(* (KeyFetchPool_stopondone.cfg: the workers wait for a queue that is never closed,      *)
+(* the caller waits for the workers - TLC reports the deadlock).                        *)
+(*                                                                              *)
 (* Property (over the history variable `succ`, never read by the mechanics): the  *)
 (* returned map is exactly the local keys plus the union of the keys of the       *)
 (* servers one of whose stages succeeded - for every completion order and fault   *)
@@ -31,7 +42,7 @@
 (* weak fairness.                                                                  *)
 EXTENDS Integers, FiniteSets, TLC
 
-CONSTANTS Servers, NWorkers, Q, StartFirst, KeyIds, DirectOutcomes, NotaryOutcomes, HasLocal
+CONSTANTS Servers, NWorkers, Q, StartFirst, KeyIds, DirectOutcomes, NotaryOutcomes, HasLocal, CtxModes, StopOnDone
 
 Workers == 1..NWorkers
 KeysOf(s) == {<<s, k>> : k \in KeyIds}
@@ -44,11 +55,14 @@ VARIABLES caller,    \* the caller of FetchKeys: "fill", "start", "wait"
           w,         \* per worker: [pc, s]
           results,   \* the shared map (as the set of its keys; values are determined by the key)
           returned, out,
+          mode,      \* how the caller's context behaves: "live", "before" (cancelled before the call), "deadline" (its
+                     \* deadline passed before the call), "mid" (cancelled at some moment during the call)
+          ctx,       \* "live" or "done"
           succ,      \* history: servers whose direct or notary fetch succeeded
           taken      \* history: how often each server was taken from the channel
 
-vars == <<caller, tosend, closed, pending, w, results, returned, out, succ, taken>>
-mech == <<caller, tosend, closed, pending, w, results, returned, out>>
+vars == <<caller, tosend, closed, pending, w, results, returned, out, mode, ctx, succ, taken>>
+mech == <<caller, tosend, closed, pending, w, results, returned, out, mode, ctx>>
 
 Init ==
   /\ caller = IF StartFirst THEN "start" ELSE "fill"
@@ -59,6 +73,8 @@ Init ==
   /\ results = LocalKeys
   /\ returned = FALSE
   /\ out = {}
+  /\ mode \in CtxModes
+  /\ ctx = IF mode \in {"before", "deadline"} THEN "done" ELSE "live"
   /\ succ = {}
   /\ taken = [s \in Servers |-> 0]
 
@@ -69,7 +85,7 @@ Send(s) ==
   /\ Cardinality(pending) < Q
   /\ tosend' = tosend \ {s}
   /\ pending' = pending \cup {s}
-  /\ UNCHANGED <<caller, closed, w, results, returned, out, succ, taken>>
+  /\ UNCHANGED <<caller, closed, w, results, returned, out, mode, ctx, succ, taken>>
 
 (* close(pending) *)
 Close ==
@@ -77,14 +93,14 @@ Close ==
   /\ tosend = {}
   /\ closed' = TRUE
   /\ caller' = IF StartFirst THEN "wait" ELSE "start"
-  /\ UNCHANGED <<tosend, pending, w, results, returned, out, succ, taken>>
+  /\ UNCHANGED <<tosend, pending, w, results, returned, out, mode, ctx, succ, taken>>
 
 (* for i := 0; i < numWorkers; i++ { go worker(pending) } *)
 StartWorkers ==
   /\ caller = "start"
   /\ w' = [i \in Workers |-> [pc |-> "take", s |-> ""]]
   /\ caller' = IF StartFirst THEN "fill" ELSE "wait"
-  /\ UNCHANGED <<tosend, closed, pending, results, returned, out, succ, taken>>
+  /\ UNCHANGED <<tosend, closed, pending, results, returned, out, mode, ctx, succ, taken>>
 
 Take(i) ==
   /\ w[i].pc = "take"
@@ -97,30 +113,30 @@ Take(i) ==
         /\ closed
         /\ w' = [w EXCEPT ![i] = [pc |-> "exit", s |-> ""]]
         /\ UNCHANGED <<pending, taken>>
-  /\ UNCHANGED <<caller, tosend, closed, results, returned, out, succ>>
+  /\ UNCHANGED <<caller, tosend, closed, results, returned, out, mode, ctx, succ>>
 
 Direct(i, o) ==
   /\ w[i].pc = "direct"
-  /\ o \in DirectOutcomes
+  /\ o \in (IF ctx = "done" THEN {"ctx"} ELSE DirectOutcomes)
   /\ IF o = "ok"
      THEN w' = [w EXCEPT ![i].pc = "merge"] /\ succ' = succ \cup {w[i].s}
      ELSE w' = [w EXCEPT ![i].pc = "notary"] /\ UNCHANGED succ
-  /\ UNCHANGED <<caller, tosend, closed, pending, results, returned, out, taken>>
+  /\ UNCHANGED <<caller, tosend, closed, pending, results, returned, out, mode, ctx, taken>>
 
 Notary(i, o) ==
   /\ w[i].pc = "notary"
-  /\ o \in NotaryOutcomes
+  /\ o \in (IF ctx = "done" THEN {"ctx"} ELSE NotaryOutcomes)
   /\ IF o = "ok"
      THEN w' = [w EXCEPT ![i].pc = "merge"] /\ succ' = succ \cup {w[i].s}
      ELSE w' = [w EXCEPT ![i] = [pc |-> "take", s |-> ""]] /\ UNCHANGED succ
-  /\ UNCHANGED <<caller, tosend, closed, pending, results, returned, out, taken>>
+  /\ UNCHANGED <<caller, tosend, closed, pending, results, returned, out, mode, ctx, taken>>
 
 (* resultsMutex.Lock(); for req, keys := range serverResults { results[req] = keys }; resultsMutex.Unlock() *)
 Merge(i) ==
   /\ w[i].pc = "merge"
   /\ results' = results \cup KeysOf(w[i].s)
   /\ w' = [w EXCEPT ![i] = [pc |-> "take", s |-> ""]]
-  /\ UNCHANGED <<caller, tosend, closed, pending, returned, out, succ, taken>>
+  /\ UNCHANGED <<caller, tosend, closed, pending, returned, out, mode, ctx, succ, taken>>
 
 (* wait.Wait(); return results *)
 Return ==
@@ -129,13 +145,29 @@ Return ==
   /\ \A i \in Workers : w[i].pc = "exit"
   /\ returned' = TRUE
   /\ out' = results
-  /\ UNCHANGED <<caller, tosend, closed, pending, w, results, succ, taken>>
+  /\ UNCHANGED <<caller, tosend, closed, pending, w, results, mode, ctx, succ, taken>>
+
+(* environment: the caller's context is cancelled at an arbitrary moment of the call *)
+Cancel ==
+  /\ mode = "mid"
+  /\ ctx = "live"
+  /\ ~returned
+  /\ ctx' = "done"
+  /\ UNCHANGED <<caller, tosend, closed, pending, w, results, returned, out, mode, succ, taken>>
+
+(* only with StopOnDone: the caller stops handing out servers once the context is done and goes on WITHOUT close(pending) *)
+Abandon ==
+  /\ StopOnDone
+  /\ caller = "fill"
+  /\ ctx = "done"
+  /\ caller' = IF StartFirst THEN "wait" ELSE "start"
+  /\ UNCHANGED <<tosend, closed, pending, w, results, returned, out, mode, ctx, succ, taken>>
 
 Done == returned /\ UNCHANGED vars
 
-WStep(i) == Take(i) \/ Merge(i) \/ (\E o \in DirectOutcomes : Direct(i, o)) \/ (\E o \in NotaryOutcomes : Notary(i, o))
-CStep == (\E s \in Servers : Send(s)) \/ Close \/ StartWorkers \/ Return
-Next == (\E i \in Workers : WStep(i)) \/ CStep \/ Done
+WStep(i) == Take(i) \/ Merge(i) \/ (\E o \in DirectOutcomes \cup {"ctx"} : Direct(i, o)) \/ (\E o \in NotaryOutcomes \cup {"ctx"} : Notary(i, o))
+CStep == (\E s \in Servers : Send(s)) \/ Close \/ Abandon \/ StartWorkers \/ Return
+Next == (\E i \in Workers : WStep(i)) \/ CStep \/ Cancel \/ Done
 
 Spec == Init /\ [][Next]_vars
 FairSpec == Spec /\ (\A i \in Workers : WF_vars(WStep(i))) /\ WF_vars(CStep)
@@ -146,10 +178,13 @@ TypeOK ==
   /\ caller \in {"fill", "start", "wait"}
   /\ \A i \in Workers : w[i].pc \in {"unstarted", "take", "direct", "notary", "merge", "exit"}
   /\ results \subseteq (LocalKeys \cup UNION {KeysOf(s) : s \in Servers})
+  /\ mode \in {"live", "before", "deadline", "mid"} /\ ctx \in {"live", "done"}
 
 ExactUnion == returned => out = LocalKeys \cup UNION {KeysOf(s) : s \in succ}
 EachServerOnce == \A s \in Servers : taken[s] <= 1 /\ (returned => taken[s] = 1)
 NothingEarly == ~returned => out = {}
+(* a caller whose context was done before the call gets the local keys and nothing else - and it does get them *)
+GoneBeforeTheCall == (returned /\ mode \in {"before", "deadline"}) => out = LocalKeys
 QueueBound == Cardinality(pending) <= Q
 Returns == <>returned
 =============================================================================
